@@ -41,6 +41,9 @@ Variable expr_eqb : expr -> expr -> bool.
 Variable key_eqb : key -> key -> bool.
 Variable keyf : expr -> key.
 Variable doit : expr -> expr.
+(* can pickle.dump serialise (e, e.doit())?  False for an expression that carries a lambda or a
+   local function as non-SymPy attribute: pickle.dump raises PicklingError/AttributeError/TypeError *)
+Variable picklable : expr -> bool.
 
 Inductive content :=
 | Valid (src res : expr)
@@ -135,10 +138,15 @@ Definition do_step (v : variant) (s : sys) (i : nat) : sys :=
             | _ => setdp s k (Some Garbage) i (PWriting e k r)
             end
         end
-    | PWriting e k r =>                               (* last chunk + close *)
+    | PWriting e k r =>                               (* last chunk + close, or pickle.dump raises *)
         match v with
-        | Robust => setp s i (PWritten e k r)
-        | Pinned => setdp s k (Some (Legacy r)) i (PDone e (VExpr r))
+        | Robust =>
+            if picklable e then setp s i (PWritten e k r)
+            else setp s i (PDone e (VExpr r))         (* since e4bf90e: temp removed, warning, result returned;
+                                                         the shared directory is untouched *)
+        | Pinned =>
+            if picklable e then setdp s k (Some (Legacy r)) i (PDone e (VExpr r))
+            else setp s i (PRaised e)                 (* the exception escapes, the target stays truncated *)
         end
     | PWritten e k r =>                               (* os.replace(tmp, filename); return *)
         match dir s k with
@@ -285,8 +293,10 @@ Arguments call {expr key}. Arguments seq_calls {expr key}.
 Module NatCache.
 Definition tab (t : list nat) (d : nat) (e : nat) : nat := nth e t d.
 
-Definition nstep v (ktab dtab : list nat) := step nat nat Nat.eqb Nat.eqb (tab ktab 0) (tab dtab 0) v.
-Definition nrun v (ktab dtab : list nat) acts s := fold_left (nstep v ktab dtab) acts s.
+(* ptab: 1 = picklable, 0 = not; expressions beyond the table are picklable *)
+Definition nstep v (ktab dtab ptab : list nat) :=
+  step nat nat Nat.eqb Nat.eqb (tab ktab 0) (tab dtab 0) (fun e => Nat.eqb (tab ptab 1 e) 1) v.
+Definition nrun v (ktab dtab ptab : list nat) acts s := fold_left (nstep v ktab dtab ptab) acts s.
 
 (* observation of a state: outcome code per call, content code per key 0..nk-1 *)
 Definition ocode (p : pstate nat nat) : nat :=
@@ -311,12 +321,12 @@ Definition observe (nk : nat) (s : sys nat nat) : list nat * list (list nat) :=
   (map ocode (procs s), map (fun k => ccode (dir s k)) (seq 0 nk)).
 
 (* a history is a list of operations, an operation a list of actions; one observation per op *)
-Fixpoint ntrace v ktab dtab nk (ops : list (list (action nat nat))) (s : sys nat nat) :=
+Fixpoint ntrace v ktab dtab ptab nk (ops : list (list (action nat nat))) (s : sys nat nat) :=
   match ops with
   | [] => []
-  | o :: t => let s' := nrun v ktab dtab o s in observe nk s' :: ntrace v ktab dtab nk t s'
+  | o :: t => let s' := nrun v ktab dtab ptab o s in observe nk s' :: ntrace v ktab dtab ptab nk t s'
   end.
-Definition history v ktab dtab nk ops := ntrace v ktab dtab nk ops (init empty_dir).
+Definition history v ktab dtab ptab nk ops := ntrace v ktab dtab ptab nk ops (init empty_dir).
 End NatCache.
 
 (* ------------------------------------------------------------------------------------------ *)
